@@ -178,6 +178,42 @@ func generatePosts() {
 		}
 	}
 
+	// ---- site configuration: every setting of the five switches -------------------------------------------------
+	for c := 0; c < 32; c++ {
+		bits := ""
+		for k := 4; k >= 0; k-- {
+			bits += string(rune('0' + (c>>k)&1))
+		}
+		reset()
+		do("config " + bits)
+		for k, ub := range [][2]string{{"CodingMan", "Note"}, {"SYSOP", "Note"}, {"CodingMan", "WhoAmI"}, {"test0", "EditExp"}, {"CodingMan", "EditExp"}} {
+			q := newReq(ub[0], ub[1])
+			q.title = randTitle(r, 8+r.Intn(30), k >= 2 && r.Bool())
+			if k == 2 {
+				q.title = append(append([]byte{}, ptttype.TN_ANNOUNCE_BIG5...), " rules"...)
+			}
+			q.lines = randBody(r, 6)
+			post(q)
+		}
+	}
+	nCfg := 10
+	if run.Thorough() {
+		nCfg = 300
+	}
+	for h := 0; h < nCfg; h++ {
+		reset()
+		for s := 0; s < 3+r.Intn(8); s++ {
+			if r.Intn(3) == 0 {
+				do("config " + string(r.Bytes(5, []byte("01"))))
+			}
+			p := pairs[r.Intn(len(pairs))]
+			q := newReq(p[0], p[1])
+			q.title = randTitle(r, r.Intn(71), r.Intn(3) == 0)
+			q.lines = randBody(r, 8)
+			post(q)
+		}
+	}
+
 	// ---- sessions: one user loaded as several independent records ----------------------------------------------
 	postAs := func(sess string, q *request) {
 		do("postas " + hx.Hex([]byte(sess)) + " " + strings.Join(strings.Fields(q.line())[1:3], " ") + " " + strings.Join(strings.Fields(q.line())[4:], " "))
@@ -304,7 +340,7 @@ func generatePosts() {
 		"post 57686f416d49 57686f416d49 436f64696e674d616e00000000 - 312e322e332e34 - - 6869 6g",
 		"post 57686f416d49 57686f416d49 436f64696e674d616e00 - 312e322e332e34 - - 6869 .",
 		"load", "load 41 zz", "postas 5a 57686f416d49 57686f416d49 - 312e322e332e34 - - 6869 .",
-		"post 57686f416d50 57686f416d49 436f64696e674d616e00000000 - 312e322e332e34 - - 6869 .", "consts 1"} {
+		"post 57686f416d50 57686f416d49 436f64696e674d616e00000000 - 312e322e332e34 - - 6869 .", "consts 1", "config 0101", "config 01x10", "config"} {
 		do(l)
 	}
 }
